@@ -9,7 +9,7 @@ from . import model, sig
 T0 = 1_600_000_000  # base mtime (seconds)
 FILE_NAMES = ["a.txt", "b.dat", "x_excl.log", "data.txt"]  # "data.txt" holds, but does not start with, "a.txt"
 SUB = "sub"
-CONTENTS = ["alpha", "bravo", "ALPHA", "", "charlie-long-content"]
+CONTENTS = ["alpha", "bravo", "ALPHA", "", "charlie-long-content", "B" + "y" * 9000]  # the last one spans buffers
 
 
 # ordinary data files whose names other tools treat specially (filecmp's default ignore list, core dumps)
@@ -66,6 +66,8 @@ def correlate(rng, src, dst):
                     dj["files"][fn] = [content, mt]  # identical
                 elif r < 0.40:
                     other = content.swapcase() if content.swapcase() != content else content[::-1]
+                    if len(content) > 8192:
+                        other = ("J" if content[0] != "J" else "K") + content[1:]  # differs in its first byte only
                     if len(other) == len(content) and other != content:
                         dj["files"][fn] = [other, mt]  # same size, same mtime, different content
                 elif r < 0.55:
